@@ -7,6 +7,7 @@
   4 PType, 5 SType, 6–9 system bytes.  Frame positions are header positions + 4.
 -/
 import GoSecs.Lemmas.Hsms
+import GoSecs.Lemmas.HsmsGen
 import GoSecs.Gen.Consts
 import GoSecs.Gen.Funcs
 
@@ -31,6 +32,85 @@ theorem consts_gen :
     Gen.hsms_RejectTransactionNotOpen = (rejectTransactionNotOpen : Int) ∧
     Gen.hsms_RejectNotSelected = (rejectNotSelected : Int) := by
   decide
+
+/-! ### Functions regenerated from hsms/data_msg.go, hsms/control_msg.go, hsms/id_gen.go, internal/wire/body.go
+
+  `Gen.hsms_*` are re-translated from the working tree by tools/go2lean on every run (proofs of the ties in
+  GoSecs/Lemmas/HsmsGen.lean).  `m.toGen` is the model message as the generated Go struct; a data message's
+  `wire.Body` is represented by the bytes it holds (the translator's `wire.Body ↦ rawFrameBody` entry). -/
+
+/-- `(*DataMessage).ToBytes`: `uint32(10 + body.Len())` big-endian, the header, the body — for every message;
+    and the `make([]byte, 0, 4+10+n)` never panics. -/
+theorem dataToBytes_gen (m : DataMsg) : Gen.hsms_DataMessage_ToBytes m.toGen = some (Msg.toBytes (.data m)) :=
+  Hsms.dataToBytes_gen m
+
+/-- `(*ControlMessage).ToBytes`: the 14 bytes `00 00 00 0A ‖ header`, no index out of range. -/
+theorem controlToBytes_gen (m : ControlMsg) : Gen.hsms_ControlMessage_ToBytes m.toGen = some (Msg.toBytes (.control m)) :=
+  Hsms.controlToBytes_gen m
+
+/-- The header accessors of a data message read the E37 fields the model reads. -/
+theorem dataAccessors_gen (m : DataMsg) :
+    Gen.hsms_DataMessage_SessionID m.toGen = (m.hdr.sessionID : Int) ∧
+    Gen.hsms_DataMessage_SystemBytes m.toGen = m.hdr.sys.toBytes ∧
+    Gen.hsms_DataMessage_HeaderBytes m.toGen = m.hdr.toBytes ∧
+    Gen.hsms_DataMessage_Stream m.toGen = (m.hdr.stream.toNat : Int) ∧
+    Gen.hsms_DataMessage_Function m.toGen = (m.hdr.function.toNat : Int) ∧
+    Gen.hsms_DataMessage_WaitBit m.toGen = m.hdr.wbit ∧
+    Gen.hsms_DataMessage_ID m.toGen = (idOfSys m.hdr.sys : Int) :=
+  ⟨dataSessionID_gen m, dataSystemBytes_gen m, dataHeaderBytes_gen m, dataStream_gen m, dataFunction_gen m,
+   dataWaitBit_gen m, dataID_gen m⟩
+
+/-- …and those of a control message (`Type()` included: the SType byte, 255 when E37 does not define it). -/
+theorem controlAccessors_gen (m : ControlMsg) :
+    Gen.hsms_ControlMessage_Type m.toGen = (m.type : Int) ∧
+    Gen.hsms_ControlMessage_SessionID m.toGen = (m.hdr.sessionID : Int) ∧
+    Gen.hsms_ControlMessage_SystemBytes m.toGen = m.hdr.sys.toBytes ∧
+    Gen.hsms_ControlMessage_HeaderBytes m.toGen = m.hdr.toBytes ∧
+    Gen.hsms_ControlMessage_WaitBit m.toGen = m.replyExpected ∧
+    Gen.hsms_ControlMessage_ID m.toGen = (idOfSys m.hdr.sys : Int) :=
+  ⟨controlType_gen m, controlSessionID_gen m, controlSystemBytes_gen m, controlHeaderBytes_gen m, controlWaitBit_gen m,
+   controlID_gen m⟩
+
+/-- `ToSystemBytes` / `FromSystemBytes` are the model's big-endian packing, for every id / every four bytes. -/
+theorem systemBytes_gen (id : Nat) (s : Sys) :
+    Gen.hsms_ToSystemBytes (id : Int) = (sysOfID id).toBytes ∧ Gen.hsms_FromSystemBytes s.toBytes = (idOfSys s : Int) :=
+  ⟨toSystemBytes_gen id, fromSystemBytes_gen s⟩
+
+/-- The request constructors pack session id, SType and system bytes as the model does. -/
+theorem requestCtors_gen (sid : Nat) (s : Sys) :
+    Gen.hsms_NewSelectReq (sid : Int) s.toBytes = (newSelectReq sid s).toGen ∧
+    Gen.hsms_NewDeselectReq (sid : Int) s.toBytes = (newDeselectReq sid s).toGen ∧
+    Gen.hsms_NewSeparateReq (sid : Int) s.toBytes = (newSeparateReq sid s).toGen ∧
+    Gen.hsms_NewLinktestReq s.toBytes = (newLinktestReq s).toGen :=
+  ⟨newSelectReq_gen sid s, newDeselectReq_gen sid s, newSeparateReq_gen sid s, newLinktestReq_gen s⟩
+
+/-- Re-stamping a control message replaces exactly the session id / the system bytes. -/
+theorem restamp_gen (m : ControlMsg) (sid : Nat) (s : Sys) :
+    Gen.hsms_ControlMessage_WithSessionID m.toGen (sid : Int) = (m.withSessionID sid).toGen ∧
+    Gen.hsms_ControlMessage_WithSystemBytes m.toGen s.toBytes = (m.withSys s).toGen :=
+  ⟨withSessionID_gen m sid, withSystemBytes_gen m s⟩
+
+/-- **The length gates of `DecodeHSMSMessage` and `DecodeHSMSPayload`, regenerated from hsms/decode.go** (their
+    statements before `decodeOwnedFrame`): minimum 14 bytes, length field ≥ 10 and ≤ `maxHSMSMsgLen`, length field =
+    `len(data) - 4`, then the owned copy `data[4:4+msgLen]` (`4+msgLen` in `uint32` arithmetic) — are the model's
+    `frameGuard` / `payloadGuard`, for every byte string, with no slice out of range; the model decoders are these
+    gates followed by `decodeOwnedFrame`. -/
+theorem decodeGuards_gen (data : Bytes) :
+    Gen.hsms_DecodeHSMSMessage_guards data =
+      some (match frameGuard data with
+        | .error e => .error (false, some e.goName)
+        | .ok owned => .ok (((beVal (data.take 4) : Nat) : Int), owned)) ∧
+    decodeHSMSMessage data = (match frameGuard data with | .error e => .error e | .ok owned => decodeOwnedFrame owned) :=
+  ⟨Hsms.decodeGuards_gen data, decodeHSMSMessage_guard data⟩
+
+theorem payloadGuards_gen (payload : Bytes) :
+    Gen.hsms_DecodeHSMSPayload_guards payload =
+      (match payloadGuard payload with
+        | .error e => .error (false, some (match e with
+            | .lenBig => "hsms payload exceeds maximum: %d > %d" | _ => "ErrInvalidHeaderLength"))
+        | .ok _ => .ok ()) ∧
+    decodeHSMSPayload payload = (match payloadGuard payload with | .error e => .error e | .ok _ => decodeOwnedFrame payload) :=
+  ⟨Hsms.payloadGuards_gen payload, decodeHSMSPayload_guard payload⟩
 
 set_option maxRecDepth 8192 in
 /-- The source's `IsValidSType` (translated from message.go) is the E37 table, for every byte. -/
